@@ -9,7 +9,7 @@ CONSTANTS
   SC = 2
   MaxOut = 3
   MaxOpens = 4
-  Jitter = FALSE
+  Jitter = TRUE
   Dynamic = FALSE
   EnvBudget = 0
   FlipStates = {}
